@@ -225,6 +225,12 @@ def run_check(pid, tier):
     try:
         build_s = build.ensure(targets)
     except build.BuildError as e:
+        bfv = chk.get('build_failure_is_violation')
+        if bfv and re.search(bfv['pattern'], str(e)):
+            # the property covers this build step itself (the schema compiler must succeed and its output must compile)
+            v = {'t': 'viol', '_part': chk['parts'][0]['name'], 'clause': bfv['clause'], 'mode': bfv['mode'], 'tags': ['stock-schema'], 'case': 'build',
+                 'observed': str(e)[-1500:], 'expected': 'f8c exits 0 and the code it generates for the stock schemas compiles', 'desc': ''}
+            return conclude(pid, chk, tier, [v, {'t': 'stat', '_part': chk['parts'][0]['name'], 'evaluations': 1, 'nontrivial': 1, 'violations': 1, 'done': True, 'outcomes': {'build-of-generated-code-failed': 1}, 'counters': {}}], time.time() - t0, 0.0)
         print('BUILD FAILED for %s (no verdict):\n%s' % (pid, str(e)[-2500:]))
         return 2
     budget = chk.get('budget', {}).get(tier, 110 if tier == 'quick' else 900)
@@ -345,6 +351,19 @@ def replay(pid, path):
     r = json.load(open(path))
     chk = CHECKS[pid]
     part = next(p for p in chk['parts'] if p['name'] == r['part'])
+    if r.get('case') == 'build':     # the violation was a failing build of the generated code: build again
+        targets = []
+        for p in chk['parts']:
+            if p.get('kind', 'harness') == 'harness':
+                targets.append((p.get('variant', 'san'), p['harness']))
+            targets.extend(p.get('extra_targets', []))
+        try:
+            build.ensure(targets)
+            print('replay verdict: no violation (the generated code builds)')
+            return 0
+        except build.BuildError as e:
+            print(str(e)[-2500:]); print('replay verdict: VIOLATION reproduced (the generated code does not build)')
+            return 1
     if part.get('kind') == 'python':
         return part['replay'](pid, part, r)
     try:
